@@ -10,6 +10,12 @@ REQ = "From SCK Require Import Voting VoteExt RunVote."
 DET = V.RULES + ["Copeland"]
 RAND = ["RandomizedPlurality", "RandomizedBorda", "RandomizedVeto", "RandomizedKApproval", "RandomizedHarmonic"]
 
+# entry points (of C20's registry) whose output mentions alternatives / items / agents: "all" = every number in the output
+# is such an index, "second" = [simulated profile, reported outcome]
+SHIFT = {"GaleShapley.scf": "all", "Irving.scf": "all", "DoubleLambdaTSF": "all", "MaximumWeightMatching.scf": "all",
+         "RandomSerialDictatorship.scf": "all", "SimultaneousEating.scf": "all", "ProbabilisticSerial.scf": "all",
+         "KARV": "second", "LambdaPRV": "second", "LambdaTSF": "second", "MatchTwoQueries": "second"}
+
 class C13(Prop):
     translators = ['scoring']   # weights, winners, break_tie regenerated from deterministic_scoring.py / utils.py on every run
     pid = "C13"
@@ -72,8 +78,23 @@ class C13(Prop):
             R = GS.rand_profile(rng, n, m, pn); H = GS.rand_profile(rng, m, n, pn)
             if not (GS.valid_profile(R) and GS.valid_profile(H)): continue
             yield dict(entry="GaleShapley.scf", family="gs", rule="GS", R=R, H=H, c=[rng.randint(1, 2) for _ in range(m)], ro=bool(i % 2))
+        # "for every rule in the library": the matching, allocation and elicitation rule families, run under both conventions
+        from . import c20 as C20M
+        for c in C20M.PROP.cases(rng, tier):
+            if c["name"] in SHIFT:
+                yield dict(c, entry=c["name"] + ".index_shift", family="shift_all", rule="SHIFT", tb="accept")
 
     def run(self, case):
+        if case["rule"] == "SHIFT":
+            from . import c20 as C20M
+            outs = {}
+            for z in (False, True):
+                C20M.ZI = z
+                try:
+                    outs[z] = C20M.PROP.run_one(case, "int64")
+                finally:
+                    C20M.ZI = True
+            return dict(status=("ok" if outs[False]["status"] == outs[True]["status"] == "ok" else "err"), one=outs[False], zero=outs[True])
         if case["rule"] == "GS":
             a = GS.run_gs(dict(case, zi=False)); b = GS.run_gs(dict(case, zi=True))
             return dict(status=("ok" if a["status"] == b["status"] == "ok" else "err"), one=a, zero=b)
@@ -84,6 +105,20 @@ class C13(Prop):
 
     def oracle(self, case, obs):
         a, b = obs["one"], obs["zero"]
+        if case["rule"] == "SHIFT":
+            if obs["status"] != "ok":
+                if a["status"] == b["status"] == "err" and a.get("err") == b.get("err"):
+                    return None      # both conventions reject the input the same way (e.g. no feasible assignment)
+                return ("index_shift", "%s: one-indexed run -> %s %s, zero-indexed run -> %s %s" % (case["name"], a["status"], a.get("err", ""), b["status"], b.get("err", "")))
+            def up(x):
+                if isinstance(x, list): return [up(v) for v in x]
+                if isinstance(x, float): return x + 1
+                return x
+            ra, rb = a["result"], b["result"]
+            want = [rb[0], up(rb[1])] if SHIFT[case["name"]] == "second" else up(rb)
+            if ra != want:
+                return ("index_shift", "%s: one-indexed output %r is not the zero-indexed output %r shifted by one" % (case["name"], ra, rb))
+            return None
         if case["rule"] == "GS":
             if obs["status"] != "ok":
                 return ("no_result", "GaleShapley failed")
@@ -131,7 +166,7 @@ class C13(Prop):
         return None
 
     def coq(self, case, obs):
-        if case["rule"] in ("GS", "STV") or obs["status"] != "ok":
+        if case["rule"] in ("GS", "STV", "SHIFT") or obs["status"] != "ok":
             return None
         b = obs["zero"]; sc = b["score"]
         if case["rule"] in RAND:
@@ -145,6 +180,8 @@ class C13(Prop):
         return ("scf", ct(V.cQl(sc), cz(1), cn(V.TBS.index(case["tb"])), "true", cn(pick), o))
 
     def nontrivial(self, case, obs):
+        if case["rule"] == "SHIFT":
+            return obs["status"] == "ok"
         if obs["status"] != "ok" or case["rule"] in ("GS", "STV"):
             return obs["status"] == "ok" and case["rule"] == "GS" and len(obs["zero"]["pairs"]) > 0
         sc = obs["zero"]["score"]
